@@ -23,7 +23,7 @@ SPEC = {
              'complete grid of the bucket function. Non-trivial = list with >=2 distinct buckets hit and a merchant or month '
              'shared by >=2 transactions; distinct by digest of the list'),
     'exhaustive': {'quick': False, 'thorough': False},
-    'required_counters': ['analyze_calls', 'bucket_model_checks', 'permutation_checks', 'partition_checks', 'grid_cells'],
+    'required_counters': ['analyze_calls', 'bucket_model_checks', 'permutation_checks', 'partition_checks', 'grid_cells', 'cli_partition_checks'],
     'assumptions': ['amounts are finite floats (non-finite amounts are kept out by the parser, property C05)',
                     'order independence is asserted up to float rounding: tolerance 1e-9*(1+sum|amount|)'],
 }
@@ -272,9 +272,94 @@ def grid(rec):
     rec.case(n)
 
 
+def cli_partition(rec, rnd, tmp, k):
+    """`tally up` on the same statement rows kept in ONE source versus split over several sources (in another order, with an unreadable or
+    missing source in between): the figures of the JSON report must not depend on the split."""
+    import json as _json
+    import os
+    import shutil
+    from vt import budget as B
+    words = ['NETFLIX', 'PAYROLL ACME', 'VENMO', 'FIDELITY 401K', 'COSTCO', 'RENT', 'UBER']
+    rows = []
+    for i in range(rnd.randint(3, 14)):
+        rows.append('%04d-%02d-%02d,%s %d,%.2f' % (rnd.choice([2024, 2025]), rnd.randint(1, 12), rnd.randint(1, 28), rnd.choice(words), i % 3,
+                                                 rnd.choice([1, 1, 1, -1]) * rnd.choice([5, 12.5, 99.99, 1234.56, 0.01, 250])))
+    rules = ('[Pay]\nmatch: contains("PAYROLL")\ncategory: Income\nsubcategory: Salary\ntags: income\n\n[Venmo]\nmatch: contains("VENMO")\ncategory: Transfers\n'
+             'subcategory: P2P\ntags: Transfer\n\n[Fid]\nmatch: contains("FIDELITY")\ncategory: Savings\nsubcategory: 401k\ntags: investment\n\n'
+             '[Netflix]\nmatch: contains("NETFLIX")\ncategory: Subs\nsubcategory: Video\n\n[Big]\nmatch: amount > 1000\ntags: large\n')
+    nparts = rnd.randint(2, 4)
+    parts = [[] for _ in range(nparts)]
+    for r in rows:
+        parts[rnd.randrange(nparts)].append(r)
+    fault_at = rnd.randrange(nparts + 1)
+    fault = rnd.choice(['missing', 'invalid-utf8', 'none'])
+    results = {}
+    for variant in ('one', 'split'):
+        root = os.path.join(tmp, 'p%d-%s' % (k, variant))
+        os.makedirs(os.path.join(root, 'config'))
+        os.makedirs(os.path.join(root, 'data'))
+        srcs = []
+        if variant == 'one':
+            with open(os.path.join(root, 'data', 'all.csv'), 'w') as f:
+                f.write('Date,Description,Amount\n' + '\n'.join(rows) + '\n')
+            srcs.append(('All', 'data/all.csv'))
+        else:
+            for j, prt in enumerate(parts):
+                if j == fault_at and fault != 'none':
+                    srcs.append(('Broken', 'data/broken.csv'))
+                with open(os.path.join(root, 'data', 's%d.csv' % j), 'w') as f:
+                    f.write('Date,Description,Amount\n' + '\n'.join(prt) + ('\n' if prt else ''))
+                srcs.append(('S%d' % j, 'data/s%d.csv' % j))
+            if fault_at == nparts and fault != 'none':
+                srcs.append(('Broken', 'data/broken.csv'))
+            if fault == 'invalid-utf8':
+                with open(os.path.join(root, 'data', 'broken.csv'), 'wb') as f:
+                    f.write(b'Date,Description,Amount\n2025-01-01,caf\xe9 \xff,5.00\n')
+        with open(os.path.join(root, 'config', 'settings.yaml'), 'w') as f:
+            f.write('year: 2025\nmerchants_file: config/merchants.rules\ndata_sources:\n' + ''.join(
+                '  - name: %s\n    file: %s\n    format: "{date:%%Y-%%m-%%d},{description},{amount}"\n' % s_ for s_ in srcs))
+        with open(os.path.join(root, 'config', 'merchants.rules'), 'w') as f:
+            f.write(rules)
+        p = B.tally(root, 'up', os.path.join(root, 'config'), '--format', 'json', '-q')
+        rec.count('cli_runs')
+        if p.returncode != 0:
+            results[variant] = ('exit', p.returncode, (p.stderr or p.stdout)[-200:])
+        else:
+            try:
+                js = B.json_from_stdout(p.stdout)
+                results[variant] = ('ok', {kk: v for kk, v in js.get('summary', {}).items()},
+                                    sorted((m['name'], round(m['total'], 2), m['count'], m['category']) for m in js.get('merchants', [])))
+            except Exception as e:
+                results[variant] = ('unparsable', str(e)[:100])
+        shutil.rmtree(root, ignore_errors=True)
+    rec.count('cli_partition_checks')
+    case = {'kind': 'cli-partition', 'rows': rows, 'parts': parts, 'fault': fault, 'fault_at': fault_at}
+    a, b = results['one'], results['split']
+    if a[0] != 'ok':
+        return
+    if b[0] != 'ok':
+        rec.violation('cli-partition:split-run-fails', f'all rows in one source: ok; split over {nparts} sources with a {fault} source: {b}', case)
+        return
+    diff = [kk for kk in set(a[1]) | set(b[1]) if not (isinstance(a[1].get(kk), (int, float)) and isinstance(b[1].get(kk), (int, float))
+                                                       and abs(a[1][kk] - b[1][kk]) <= 0.011) and a[1].get(kk) != b[1].get(kk)]
+    if diff or a[2] != b[2]:
+        rec.violation('cli-partition-dependence', f'figures {diff or "per-merchant"} differ between one source and {nparts} sources (fault {fault} at {fault_at}): '
+                      f'{ {kk: (a[1].get(kk), b[1].get(kk)) for kk in diff} } merchants {[x for x in a[2] if x not in b[2]][:2]} vs {[x for x in b[2] if x not in a[2]][:2]}', case)
+    rec.interesting(['cli', len(rows), nparts, fault, fault_at])
+
+
 def run(rec, shard, nshards, t):
     core.import_tally()
     rnd = core.rng_for('C06', shard)
+    import shutil
+    import tempfile
+    tmp = tempfile.mkdtemp(prefix='vt-c06-')
+    try:
+        for k in range(max(1, (16 if t == 'quick' else 400) // nshards)):
+            rec.case()
+            cli_partition(rec, rnd, tmp, k)
+    finally:
+        shutil.rmtree(tmp, ignore_errors=True)
     if shard == 0:
         grid(rec)
         if t != 'quick':
@@ -300,5 +385,14 @@ def replay(rec, case):
     rnd = core.rng_for('C06', 'replay')
     if case['kind'] == 'cell':
         grid(rec)
+    elif case['kind'] == 'cli-partition':
+        import shutil
+        import tempfile
+        tmp = tempfile.mkdtemp(prefix='vt-c06-')
+        try:
+            for k in range(12):
+                cli_partition(rec, rnd, tmp, k)
+        finally:
+            shutil.rmtree(tmp, ignore_errors=True)
     else:
         judge(rec, from_case(case['txns']), rnd, perms=6, parts=4)
